@@ -17,6 +17,11 @@ OTHER RECOGNISED SHAPES (anything else fails closed): cast(T, e) -> e; isinstanc
   recomputed and actual_locale == locale holds on entry; both facts are checked on the source);
   import_module(f"pendulum.locales.{actual_locale}.locale") -> locale_module actual_locale, `.locale` of it -> itself; cls(name, data) -> the record;
   difference_formatter.format(...) -> g_fmt: the translated Locale.load then the hand model Model/DiffFormat.v format (the formatter is NOT translated).
+ALSO TRANSLATED (second part of the file): duration.py Duration.in_words, interval.py Interval.in_words (the `intervals` literal -> a generated list; the
+  BODY of the for loop -> glue_*_step, the loop -> its left fold (hand template); parts.append -> functional append; dotted f-string keys -> their
+  components, Locale.get/translation's split-and-walk stays the hand primitive loc_translation), datetime.py DateTime.diff_for_humans and date.py
+  Date.diff_for_humans (self.now()/self.today() -> the explicit input clock_; self.diff(other) -> h_diff = Model/DiffHumans.v diff_comps),
+  locales/locale.py Locale.plural / ordinal / ordinalize.
 HAND MODEL: coq/Model/HumanizeObj.v.
 """
 import ast
@@ -206,6 +211,9 @@ def gen(_shared):
 
     # ---------------- Duration.in_words / Interval.in_words / DateTime.diff_for_humans / Date.diff_for_humans
     out.append("From PV Require Import Model.PdBase Model.DiffHumans.\n")
+    _gen_locale_methods(out, loc_tree)
+    out.append("(* BY HAND: a loaded Locale object (gloc) is its name and its data; its plural method is the translation above on the data *)\n"
+               "Definition loc_plural (L : gloc) (n : Z) : string := glue_Locale_plural (gl_data L) n.\n")
     _gen_words(out, h, ast.parse(open(src("duration.py")).read()), "Duration.in_words", "Duration_in_words", "src/pendulum/duration.py")
     _gen_words(out, h, ast.parse(open(src("interval.py")).read()), "Interval.in_words", "Interval_in_words", "src/pendulum/interval.py")
     out.append("(* BY HAND: self.diff(other) of diff_for_humans: Model/DiffHumans.v diff_comps (Interval's ordering of the endpoints, precise_diff with\n"
@@ -399,7 +407,7 @@ def _gen_dfh(out, h, tree, qual, tag, clock, where):
             f = ast.unparse(node.func)
             if f == clock and not node.args and not node.keywords:
                 D.n += 1
-                return ast.copy_location(_name("clock_"), node)
+                return ast.copy_location(_call("_some", _name("clock_")), node)     # a value stored in the Optional variable `other`
             self.generic_visit(node)
             if f == "self.diff" and len(node.args) == 1 and not node.keywords:
                 return ast.copy_location(_call("_diff", _name("rs_"), _name("self"), node.args[0]), node)
@@ -415,11 +423,72 @@ def _gen_dfh(out, h, tree, qual, tag, clock, where):
     d = P.Ctx()
     d.int_boolop = d.obj_fragment = d.conservative_exit = True
     d.funcs["_format_diff"] = ("glue_format_diff", [CACHE, S, "gdiff", B, B, ("opt", S)], (S, CACHE), "result")
+    d.funcs["_some"] = ("Some", ["pdt"], ("opt", "pdt"), None)
     d.funcs["_diff"] = ("h_diff", [B, "pdt", ("opt", "pdt")], "gdiff", "result")
     text, rett, monad = _tr(d, fn, f"glue_{tag}", {"cache_": CACHE, "st_": S, "clock_": "pdt", "rs_": B, "other": ("opt", "pdt"),
                                                    "absolute": B, "locale": ("opt", S)}, "pdt",
                             f"translated from {where} :: {qual} (state and cache threaded; {clock}() = the input clock_; self.diff(other) = h_diff)",
                             force_result=True)
+    out.append(text)
+
+
+def _gen_locale_methods(out, loc_tree):
+    """Locale.plural / Locale.ordinal / Locale.ordinalize (locales/locale.py) over the generated locale record"""
+    where = "src/pendulum/locales/locale.py"
+    m = P.Ctx()
+    m.int_boolop = m.obj_fragment = m.conservative_exit = True
+    m.opaque["self._data['plural'](number)"] = ("lplural {self} {number}", "string")
+    m.opaque["self._data['ordinal'](number)"] = ("lordinal {self} {number}", "string")
+    for name in ("plural", "ordinal"):
+        fn = copy.deepcopy(P.find_function(loc_tree, "Locale." + name))
+        if [a.arg for a in fn.args.args] != ["self", "number"]:
+            raise P.Unsupported(f"Locale.{name}: unexpected signature")
+        fn = HRw().visit(fn)          # cast(str, e) -> e
+        ast.fix_missing_locations(fn)
+        text, rett, monad = _tr(m, fn, f"glue_Locale_{name}", {"number": Z}, "locale",
+                                f"translated from {where} :: Locale.{name} (self._data[{name!r}] = the generated expression of the locale, applied by l{name})")
+        if rett != "string" or monad is not None:
+            raise P.Unsupported(f"Locale.{name}: unexpected type")
+        out.append(text)
+    m.kwmethods[("ordinal", "locale")] = ("glue_Locale_ordinal", ["number"], {}, [Z], "string", None)
+    m.funcs["_get_custom_ordinal"] = ("loc_get_custom_ordinal", ["locale", "string"], NODE, "result")
+    m.funcs["_str_int"] = ("str_of_Z", [Z], S, None)
+    m.funcs["_str_node"] = ("node_str", [NODE], S, "result")
+    m.funcs["_cat"] = ("pcat", [S, S], S, None)
+    m.truth[NODE] = "truthy {x}"
+
+    class O(ast.NodeTransformer):
+        def visit_Call(self, node):
+            self.generic_visit(node)
+            if ast.unparse(node.func) == "self.get" and len(node.args) == 1 and not node.keywords and isinstance(node.args[0], ast.Call) \
+                    and ast.unparse(node.args[0].func) == "_fs_custom_ordinal":
+                return ast.copy_location(_call("_get_custom_ordinal", _name("self"), node.args[0].args[0]), node)
+            return node
+
+        def visit_JoinedStr(self, node):
+            v = node.values
+
+            def plain(x):
+                return isinstance(x, ast.FormattedValue) and x.conversion == -1 and x.format_spec is None and isinstance(x.value, (ast.Name, ast.Call))
+            if len(v) == 2 and isinstance(v[0], ast.Constant) and v[0].value == "custom.ordinal." and plain(v[1]):
+                return ast.copy_location(_call("_fs_custom_ordinal", self.visit(v[1].value)), node)
+            if len(v) == 1 and plain(v[0]) and ast.unparse(v[0].value) == "number":
+                return ast.copy_location(_call("_str_int", v[0].value), node)
+            if len(v) == 2 and plain(v[0]) and plain(v[1]) and ast.unparse(v[0].value) == "number" and ast.unparse(v[1].value) == "ordinal":
+                return ast.copy_location(_call("_cat", _call("_str_int", v[0].value), _call("_str_node", v[1].value)), node)
+            raise P.Unsupported(f"unrecognised f-string: {ast.unparse(node)}")
+    fn = copy.deepcopy(P.find_function(loc_tree, "Locale.ordinalize"))
+    if [a.arg for a in fn.args.args] != ["self", "number"]:
+        raise P.Unsupported("Locale.ordinalize: unexpected signature")
+    fn = O().visit(fn)
+    ast.fix_missing_locations(fn)
+    if "_fs_custom_ordinal" in ast.unparse(fn):
+        raise P.Unsupported("Locale.ordinalize: the key f-string is not the argument of self.get")
+    text, rett, monad = _tr(m, fn, "glue_Locale_ordinalize", {"number": Z}, "locale",
+                            f"translated from {where} :: Locale.ordinalize (self.get(f'custom.ordinal.{{c}}') = loc_get_custom_ordinal; f'{{number}}' = str_of_Z;\n"
+                            "   f'{number}{ordinal}' = str(number) + str(ordinal))", force_result=True)
+    if rett != S:
+        raise P.Unsupported("Locale.ordinalize: unexpected type")
     out.append(text)
 
 
